@@ -51,16 +51,27 @@ class Clock:
 class State:
     """bookkeeping shared by all hooked containers during one harness run."""
 
-    def __init__(self, c, clock, mode):
+    def __init__(self, c, clock, mode, mutable=None):
         self.c = c
         self.clock = clock
         self.mode = mode          # "interfere" (C16) | "entry" (C17) | "plain"
+        self.mutable = mutable    # names of containers some call writes at run time (None: all); constants are never havocked
         self.last_write = {}      # (container id, key) -> time of last own write
         self.windows = []         # reads that could observe an interfering write
         self.entry_reads = []     # reads of cells not yet written by this call (entry-state dependence)
         self.bvars = {}
         self.nfresh = 0
         self.writes = []
+        self.published = []       # (name, object, snapshot, time): mutable objects stored into shared containers
+        self.removals = []        # (name, time): entries removed from shared containers (cache not insert-only)
+
+    def post_publication_mutations(self):
+        out = []
+        for name, obj, snap, t in self.published:
+            cur = list(obj) if isinstance(obj, list) else dict(obj)
+            if cur != snap:
+                out.append((name, t))
+        return out
 
     def b(self, k):
         v = self.bvars.get(k)
@@ -81,8 +92,35 @@ def _numeric(v):
     return isinstance(v, (int, float, sf.SymFloat, core.SymInt)) and not isinstance(v, bool)
 
 
+def _publish(st, cont, k, v):
+    if isinstance(v, (list, dict)) and st is not None and st.clock.active:
+        st.published.append(("%s[%r]" % (cont._symx_name, k), v, list(v) if isinstance(v, list) else dict(v), st.clock.t))
+
+
 class HookedList(list):
     _symx_name = "?"
+
+    def append(self, v):
+        _publish(_STATE, self, len(self), v)
+        list.append(self, v)
+
+    def clear(self):
+        st = _STATE
+        if st is not None and st.clock.active and len(self):
+            st.removals.append((self._symx_name, st.clock.t))
+        list.clear(self)
+
+    def pop(self, *a):
+        st = _STATE
+        if st is not None and st.clock.active:
+            st.removals.append((self._symx_name, st.clock.t))
+        return list.pop(self, *a)
+
+    def __delitem__(self, k):
+        st = _STATE
+        if st is not None and st.clock.active:
+            st.removals.append((self._symx_name, st.clock.t))
+        list.__delitem__(self, k)
 
     def __getitem__(self, k):
         v = list.__getitem__(self, k)
@@ -96,6 +134,7 @@ class HookedList(list):
         if st is not None and st.clock.active and not isinstance(k, slice):
             st.last_write[(id(self), k)] = st.clock.t
             st.writes.append((self._symx_name, k, st.clock.t))
+            _publish(st, self, k, v)
         list.__setitem__(self, k, v)
 
     def __iter__(self):
@@ -118,7 +157,32 @@ class HookedDict(dict):
         if st is not None and st.clock.active:
             st.last_write[(id(self), k)] = st.clock.t
             st.writes.append((self._symx_name, repr(k)[:40], st.clock.t))
+            _publish(st, self, repr(k)[:40], v)
         dict.__setitem__(self, k, v)
+
+    def clear(self):
+        st = _STATE
+        if st is not None and st.clock.active and len(self):
+            st.removals.append((self._symx_name, st.clock.t))
+        dict.clear(self)
+
+    def pop(self, *a):
+        st = _STATE
+        if st is not None and st.clock.active:
+            st.removals.append((self._symx_name, st.clock.t))
+        return dict.pop(self, *a)
+
+    def popitem(self):
+        st = _STATE
+        if st is not None and st.clock.active:
+            st.removals.append((self._symx_name, st.clock.t))
+        return dict.popitem(self)
+
+    def __delitem__(self, k):
+        st = _STATE
+        if st is not None and st.clock.active:
+            st.removals.append((self._symx_name, st.clock.t))
+        dict.__delitem__(self, k)
 
     def get(self, k, d=None):
         if k in self:
@@ -132,6 +196,8 @@ def _on_read(st, cont, k, v):
     t = st.clock.t
     w = st.last_write.get((id(cont), k))
     name = "%s[%r]" % (cont._symx_name, k)
+    if st.mutable is not None and cont._symx_name not in st.mutable and w is None:
+        return v          # a table nobody writes after import: no residue, no interference
     if w is None:
         # not written by this call yet: residue of earlier calls
         st.entry_reads.append((name, t))
@@ -228,9 +294,91 @@ def hook_all(found):
     return hooked, undo_all
 
 
-def begin(c, clock, mode):
+class AttrView:
+    """numeric instance attributes of a module-level singleton, seen as a keyed container."""
+
+    def __init__(self, name):
+        self._symx_name = name
+        self._symx_entry = None
+
+
+_VIEWS = {}
+
+
+def hook_instances():
+    """swap the class of every module-level singleton of the package for a subclass that logs reads/writes of its
+    numeric instance attributes with the line clock (same interference / entry-state model as the containers)."""
+    from checks import discover as _disc
+    undo = []
+    views = []
+    for path, obj in _disc.instances():
+        cls = type(obj)
+        if getattr(cls, "_symx_hooked", False) or isinstance(obj, (HookedList, HookedDict)):
+            continue
+        view = _VIEWS.setdefault(id(obj), AttrView(path))
+        views.append(view)
+
+        def __setattr__(self, name, value, _view=view):
+            st = _STATE
+            if st is not None and st.clock.active and _numeric(value):
+                st.last_write[(id(_view), name)] = st.clock.t
+                st.writes.append((_view._symx_name, name, st.clock.t))
+            object.__setattr__(self, name, value)
+
+        def __getattribute__(self, name, _view=view):
+            v = object.__getattribute__(self, name)
+            st = _STATE
+            if st is None or not st.clock.active or name[:2] == "__" or not _numeric(v):
+                return v
+            if name not in object.__getattribute__(self, "__dict__"):
+                return v
+            return _on_read(st, _view, name, v)
+        try:
+            sub = type("Hooked" + cls.__name__, (cls,), {"__setattr__": __setattr__, "__getattribute__": __getattribute__,
+                                                         "_symx_hooked": True, "__module__": cls.__module__})
+            obj.__class__ = sub
+            undo.append((obj, cls))
+        except TypeError:
+            continue
+
+    def undo_all():
+        for obj, cls in undo:
+            try:
+                obj.__class__ = cls
+            except TypeError:
+                pass
+    return views, undo_all
+
+
+def snapshot_state():
+    """shallow snapshot of every discovered shared container and of the instance attributes of the package's
+    module-level singletons, so that a symbolic run cannot leave proxies behind in real shared state."""
+    from checks import discover as _disc
+    snap = []
+    for _, _, val in discover():
+        snap.append(("c", val, list(val) if isinstance(val, list) else dict(val)))
+    for _, obj in _disc.instances():
+        snap.append(("i", obj, dict(object.__getattribute__(obj, "__dict__"))))
+    return snap
+
+
+def restore_state(snap):
+    for kind, obj, saved in snap:
+        if kind == "c":
+            if isinstance(obj, list):
+                list.__init__(obj, saved) if False else obj.__setitem__(slice(None), saved) if not isinstance(obj, HookedList) else list.__setitem__(obj, slice(None), saved)
+            else:
+                dict.clear(obj)
+                dict.update(obj, saved)
+        else:
+            d = object.__getattribute__(obj, "__dict__")
+            d.clear()
+            d.update(saved)
+
+
+def begin(c, clock, mode, mutable=None):
     global _STATE
-    _STATE = State(c, clock, mode)
+    _STATE = State(c, clock, mode, mutable)
     return _STATE
 
 
